@@ -173,6 +173,10 @@ func (s *MemCachedStore) GetStorageChanges() map[string][]byte {
 func (s *MemCachedStore) SeekAsync(ctx context.Context, rng SeekRange, cutPrefix bool) chan KeyValue {
 	res := make(chan KeyValue)
 	ps, memRes := s.prepareSeekMemSnapshot(rng)
+	// The scan goes on after SeekAsync has returned, it must not depend on
+	// what the caller does with its slices then.
+	rng.Prefix = bytes.Clone(rng.Prefix)
+	rng.Start = bytes.Clone(rng.Start)
 	go func() {
 		performSeek(ctx, ps, memRes, rng, cutPrefix, func(k, v []byte) bool {
 			select {
